@@ -38,7 +38,7 @@ def to_expr(ast):
     if k == "obj":
         e = obj_
         for n in ast[1]:
-            e = getattr(e, n)
+            e = getattr(e, n) if isinstance(n, str) else e[n]
         return e
     if k == "const":
         return ast[1]
@@ -170,7 +170,7 @@ def show(ast):
     if k == "this":
         return "this" + "".join((".%s" % n) if ast[2] == "attr" else "[%r]" % n for n in ast[1])
     if k == "obj":
-        return "obj_" + "".join(".%s" % n for n in ast[1])
+        return "obj_" + "".join((".%s" % n) if isinstance(n, str) else "[%r]" % n for n in ast[1])
     if k == "const":
         return repr(ast[1])
     if k == "bin":
